@@ -4,7 +4,9 @@ import (
 	"encoding/json"
 	"fmt"
 	"hash/fnv"
+	"io"
 	"math"
+	"os"
 	"sort"
 	"strings"
 
@@ -12,6 +14,7 @@ import (
 	"verif/harness/core"
 	"verif/harness/explore"
 	"verif/harness/ref"
+	"verif/harness/tape"
 	"verif/harness/verifrt"
 )
 
@@ -229,8 +232,10 @@ func (s *wlOrderState) construct(input []string, orders string, full bool) bool 
 					r.SeparatorChar, r.SeparatorFunc = tmp.SeparatorChar, tmp.SeparatorFunc
 				}
 				var e [3]float32
-				install(policyTape(func(b uint32, k int) uint32 { return 0 }))
+				t0 := policyTape(func(b uint32, k int) uint32 { return 0 })
+				install(t0)
 				e[0] = r.Entropy()
+				reads0 := t0.Reads
 				e[1] = r.Entropy()
 				install(policyTape(func(b uint32, k int) uint32 { return b - 1 }))
 				e[2] = r.Entropy()
@@ -242,6 +247,33 @@ func (s *wlOrderState) construct(input []string, orders string, full bool) bool 
 				if math.Float32bits(e[1]) != b0 || math.Float32bits(e[2]) != b0 {
 					c.Violation(key+" unstable", fmt.Sprintf("Entropy() of %s returned %v, %v, %v on consecutive calls / different random streams", rk, e[0], e[1], e[2]), rp2)
 					return false
+				}
+				// a random source that fails at read k of the call: Entropy()
+				// may panic (the library's way of failing closed), but a
+				// value it returns must still be the recipe's value
+				if L == 2 && reads0 > 0 {
+					for k := 1; k <= reads0; k++ {
+						tf := policyTape(func(b uint32, k int) uint32 { return 0 })
+						tf.FaultAt, tf.Fault = k, tape.Fault{Deliver: 0, Err: io.ErrUnexpectedEOF}
+						install(tf)
+						var ef float32
+						panicked := false
+						func() {
+							defer func() {
+								if recover() != nil {
+									panicked = true
+								}
+							}()
+							ef = r.Entropy()
+						}()
+						c.Count("executions", 1)
+						c.Count("entropy_evaluations_with_failing_source", 1)
+						if !panicked && math.Float32bits(ef) != b0 {
+							c.Violation(key+" unstable-fault", fmt.Sprintf("Entropy() of %s returned %v when the random source failed at read %d of the call, and %v otherwise", rk, ef, k, e[0]), rp2)
+							return false
+						}
+					}
+					install(policyTape(func(b uint32, k int) uint32 { return 0 }))
 				}
 				want := w.entropyModel()
 				_ = uncap
@@ -292,6 +324,91 @@ func (s *wlOrderState) bigList(in []string, uncap int) {
 				c.Violation(fmt.Sprintf("large list n=%d uncap=%d", len(in), uncap), fmt.Sprintf("list of %d words of which %d do not change under title-casing, scheme %q, Length %d: Entropy() = %v, documented formula gives %v", len(in), uncap, cp, L, e, want),
 					map[string]interface{}{"size": len(in), "uncapitalisable": uncap, "scheme": cp, "length": L})
 				return
+			}
+		}
+	}
+}
+
+// bigTwins: Size() and the kept set of a large list with many capitalised twins.
+func (s *wlOrderState) bigTwins(in []string) {
+	c := s.c
+	orig := append([]string{}, in...)
+	wl, err := spg.NewWordList(in)
+	c.Count("executions", 1)
+	c.Count("large_lists", 1)
+	key := fmt.Sprintf("large twin list (%d entries)", len(orig))
+	rp := map[string]interface{}{"large_twin_list": len(orig)}
+	if err != nil || wl == nil {
+		c.Violation(key, fmt.Sprintf("NewWordList failed: %v", err), rp)
+		return
+	}
+	kept, _ := ref.Normalise(orig)
+	if int(wl.Size()) != len(kept) {
+		c.Violation(key+" size", fmt.Sprintf("Size() = %d, the normalised list has %d words (%d entries, every word or every third also title-cased)", wl.Size(), len(kept), len(orig)), rp)
+		return
+	}
+	vw := spg.VerifWords(wl)
+	sort.Strings(vw)
+	if strings.Join(vw, "\x00") != strings.Join(kept, "\x00") {
+		c.Violation(key+" kept", "the kept words differ from the normalised list", rp)
+		return
+	}
+	for i := range orig {
+		if in[i] != orig[i] {
+			c.Violation(key+" mutated", "the caller's slice was changed", rp)
+			return
+		}
+	}
+	c.Outcome(fmt.Sprintf("large twin list %d -> %d", len(orig), len(kept)))
+}
+
+// badStderr constructs lists with duplicates and twins while os.Stderr is a
+// closed file, a full device, and a read-only descriptor.
+func (s *wlOrderState) badStderr() {
+	c := s.c
+	inputs := [][]string{{"ab", "ab", "cd"}, {"polish", "Polish", "ab"}, {"ab", "cd"}, {"4", "4"}}
+	type env struct {
+		name string
+		open func() *os.File
+	}
+	envs := []env{
+		{"closed", func() *os.File { f, _ := os.CreateTemp("", "verif-stderr-"); os.Remove(f.Name()); f.Close(); return f }},
+		{"/dev/full", func() *os.File { f, _ := os.OpenFile("/dev/full", os.O_WRONLY, 0); return f }},
+		{"read-only", func() *os.File { f, _ := os.Open("/dev/null"); return f }},
+	}
+	for _, e := range envs {
+		for _, in := range inputs {
+			f := e.open()
+			if f == nil {
+				continue
+			}
+			old := os.Stderr
+			os.Stderr = f
+			var wl *spg.WordList
+			var err error
+			pan := ""
+			func() {
+				defer func() {
+					if x := recover(); x != nil {
+						pan = fmt.Sprint(x)
+					}
+				}()
+				wl, err = spg.NewWordList(append([]string{}, in...))
+			}()
+			os.Stderr = old
+			f.Close()
+			c.Count("executions", 1)
+			c.Count("constructions_with_unwritable_stderr", 1)
+			kept, _ := ref.Normalise(in)
+			key := fmt.Sprintf("input %q stderr %s", in, e.name)
+			rp := map[string]interface{}{"input": in, "stderr": e.name}
+			switch {
+			case pan != "":
+				c.Violation(key+" panic", "NewWordList panicked: "+pan, rp)
+			case err != nil || wl == nil:
+				c.Violation(key+" error", fmt.Sprintf("NewWordList failed (%v) although the list is not empty (standard error: %s)", err, e.name), rp)
+			case int(wl.Size()) != len(kept):
+				c.Violation(key+" size", fmt.Sprintf("Size() = %d, expected %d", wl.Size(), len(kept)), rp)
 			}
 		}
 	}
@@ -445,6 +562,30 @@ func wlOrderRun(which string) func(c *core.Ctx) {
 				s.input(in)
 			}
 		}
+		if which == "C10" {
+			// large lists in which every word (or every third) also appears
+			// title-cased, sizes around 4096/8192 and not divisible by 8
+			for li, n := range []int{4095, 4097, 4099, 5001, 8191} {
+				for _, every := range []int{1, 3} {
+					if !c.MineKey(li*2 + every) {
+						continue
+					}
+					in := make([]string, 0, 2*n)
+					for i := 0; i < n; i++ {
+						in = append(in, fmt.Sprintf("w%dx", i))
+					}
+					for i := 0; i < n; i += every {
+						in = append(in, fmt.Sprintf("W%dx", i))
+					}
+					s.bigTwins(in)
+				}
+			}
+			// the duplicate notice goes to standard error; a standard error
+			// that cannot be written to must not change what is constructed
+			if c.MineKey(4) {
+				s.badStderr()
+			}
+		}
 		// large lists with a handful of uncapitalisable words (canonical order only)
 		if which == "C08" {
 			for li, n := range []int{99, 100, 1000, 9999, 10000, 10001, 20000, 70000} {
@@ -513,11 +654,38 @@ func init() {
 	rp := func(which string) func(raw json.RawMessage) (string, bool) {
 		return func(raw json.RawMessage) (string, bool) {
 			var r struct {
-				Input []string `json:"input"`
+				Input  []string `json:"input"`
+				Stderr string   `json:"stderr"`
+				Twins  int      `json:"large_twin_list"`
 			}
 			json.Unmarshal(raw, &r)
 			c := &core.Ctx{ID: which, Tier: "quick", NShards: 1}
 			s := &wlOrderState{c: c, which: which, bits: map[entKey]uint32{}, first: map[entKey]string{}}
+			if r.Stderr != "" {
+				s.badStderr()
+				return fmt.Sprintf("constructions with an unwritable standard error repeated: %d violation(s) %v", c.R.NViol, c.R.Violations), c.R.NViol > 0
+			}
+			if r.Twins > 0 {
+				for _, every := range []int{1, 3} {
+					n := r.Twins / 2
+					if every == 3 {
+						n = r.Twins * 3 / 4
+					}
+					for d := -2; d <= 2; d++ {
+						var in []string
+						for i := 0; i < n+d; i++ {
+							in = append(in, fmt.Sprintf("w%dx", i))
+						}
+						for i := 0; i < n+d; i += every {
+							in = append(in, fmt.Sprintf("W%dx", i))
+						}
+						if len(in) == r.Twins {
+							s.bigTwins(in)
+						}
+					}
+				}
+				return fmt.Sprintf("large twin list of %d entries rebuilt: %d violation(s) %v", r.Twins, c.R.NViol, c.R.Violations), c.R.NViol > 0
+			}
 			if verifrtMissing() {
 				// plain build: repeat the construction under the runtime's own orders
 				for i := 0; i < 2000 && c.R.NViol == 0; i++ {
